@@ -30,6 +30,8 @@ from pyvc.values import BoundMethod, ClassV, ModuleV, Opaque, Ref, SeqV, Sym, wr
 from . import c12, c14
 from .ops import Loop, MatchV, RegexV
 
+from .common import standin_findings  # noqa: E402
+
 PROPERTY = "C11"
 SCANNER = "pest.grammar.scanner.Scanner"
 GPARSER = "pest.grammar.parser.Parser"
@@ -630,7 +632,7 @@ def check_text(text: str) -> str | None:
                 return f"column {col} beyond the line of length {len(this)}"
         return None
     except RecursionError:
-        return None  # recursion budget is outside the property's scope
+        return "RecursionError escaped"
     except Exception as e:  # noqa: BLE001
         return f"{type(e).__name__}: {e}"[:100]
 
@@ -643,11 +645,37 @@ def corpus_check(tier: str, seed: int) -> dict:
 
     def run(text: str, origin: str) -> None:
         nonlocal n
+        if len(bad) >= 5:
+            return  # enough witnesses; a change that makes from_grammar loop would otherwise cost 10 s per text
         n += 1
         why = check_text(text)
         if why and len(bad) < 5:
             bad.append({"text": text if len(text) < 200 else text[:100] + "..." + text[-80:], "origin": origin, "what": why})
 
+    # rule-graph shapes (reference cycles through every optimizer pass): a cycle must neither recurse nor loop without bound
+    # (round-5: RecursionError through the skip pass - repaired in /repo -, and seed C11c: alias-following loop without a cycle guard)
+    for mod1 in ("", "_", "@", "$", "!"):
+        for mod2 in ("", "_"):
+            for body in ("b", "(b)", "b | \"x\"", "!b ~ ANY", "(!b ~ ANY)*", "b*", "b?", "#t=b", "PUSH(b)"):
+                run(f"a = {mod1}{{ {body} }}\nb = {mod2}{{ a }}", "rule cycle")
+                run(f"a = {mod1}{{ {body} }}\nb = {mod2}{{ c }}\nc = {mod2}{{ b }}", "rule cycle")
+                run(f"a = {mod1}{{ {body} }}\nb = {mod2}{{ b }}", "rule cycle")
+    for t in ['a = _{ a }', 'a = _{ b }\nb = _{ c }\nc = _{ a }', 'WHITESPACE = _{ COMMENT }\nCOMMENT = _{ WHITESPACE }\na = { "x" ~ "y" }', 'WHITESPACE = _{ WHITESPACE }\na = { "x"* }',
+              'a = { "\\u{' + "\ud800" + '1}" }', 'a = { \'\\u{' + "\udfff" + 'A}\' }', 'a = { "' + "\ud800" + '" }', "a = { '" + "\udc00" + "'..'" + "\udfff" + "' }", "/* " + "\ud800" + " */ a = { \"x\" }"]:
+        run(t, "hand")
+    # deeply nested / very long expressions: the recursive descent of the front end exhausts CPython's recursion limit.
+    # Listed finding (KNOWN_FINDINGS.txt, standin=c11-corpus); any other RecursionError is a violation.
+    deep = {"deep-parens": 'a = { ' + "(" * 3000 + '"x"' + ")" * 3000 + " }", "deep-prefix": 'a = { ' + "!" * 5000 + '"x" }', "deep-postfix": 'a = { "x"' + "?" * 5000 + " }",
+            "long-sequence": 'a = { ' + " ~ ".join(['"x"'] * 3000) + " }", "long-choice": 'a = { ' + " | ".join(["b"] * 3000) + " }\nb = { \"x\" }"}
+    listed = standin_findings(PROPERTY, "c11-corpus")
+    known_lines: list[str] = []
+    for case, t in deep.items():
+        n += 1
+        why = check_text(t)
+        if why == "RecursionError escaped" and f"recursion-depth:{case}" in listed:
+            known_lines.append(listed[f"recursion-depth:{case}"])
+        elif why and len(bad) < 5:
+            bad.append({"text": t[:100] + "..." + t[-80:], "origin": f"deep:{case}", "what": why})
     for t in ["", " ", "\n", "//", "// c", "/* c", "/* c */", "//!", "///", "a", "a=", "a={", "a={}", 'a={"', "a={'", "a={'x", "a={'x'", "a={'x'..", "a={'x'..'", "a = { b }", "a = { 'z'..'a' }",
               'a = { ^"\u00df" | \'a\'..\'b\' }', "a = { PEEK[ } ", "a = { PEEK[1.. } ", "a = { PEEK[a..b] }", "a = { \"x\"{} }", "a = { \"x\"{,} }", "a = { \"x\"{1,2,3} }", "a = { \"x\"{99999999999999999999} }",
               "a = { #tt }", "a = { #tt= }", "a = { ! }", "a = { & }", "a = { | }", "a = { ~ }", "a = { \"\\u{110000}\" }", "a = { \"\\xZZ\" }", "a = { '\\u{D800}'..'\\u{DFFF}' }", "a = { PUSH_LITERAL(x) }",
@@ -673,7 +701,8 @@ def corpus_check(tier: str, seed: int) -> dict:
     for _ in range(2500 if tier == "quick" else 30000):
         run("".join(rnd.choice(ALPHABET) for _ in range(rnd.randint(1, 14))), "token soup")
     return {"name": "c11-corpus", "kind": "bounded stand-in (Parser.from_grammar end to end on a corpus)", "evaluations": n,
-            "bound": f"hand-written edge cases, every truncation of {len(valid)} valid grammars (sampled for long files), single-character mutations, token soups up to 14 tokens", "violation": bool(bad), "details": bad[:3]}
+            "bound": f"hand-written edge cases, 270 rule-reference cycles, lone surrogates, 5 deeply nested texts, every truncation of {len(valid)} valid grammars (sampled for long files), single-character mutations, token soups up to 14 tokens",
+            "violation": bool(bad), "details": bad[:3], "known_lines": known_lines}
 
 
 def extra_checks(tier, seed):
